@@ -1,5 +1,6 @@
 (* C14 -- Peers converge on one shared live connection; lookups never hang.
-   Property theorems only; proofs live in lib/ConvergeProofs.v, ConvergeHist.v, ConvergeAttempts.v, ConvergeSeq.v.
+   Property theorems only; proofs live in lib/ConvergeProofs.v, ConvergeHist.v, ConvergeAttempts.v, ConvergeSeq.v,
+   ConvergeLayersProofs.v, RefLegProofs.v (second leg of getReference over C03's request table) and ConvergeRefProofs.v.
    `compare_offer` is the translation of Negotiation.compareOfferAndExisting (gen/ConvergeGen.v);
    `run ops` is the state of the two-Tub model lib/Converge.v after ANY finite sequence of operations
    (lookups, dialled hints, block deliveries in any order, cuts, close notifications, restarts, forced time-outs,
@@ -8,7 +9,8 @@
 From Coq Require Import ZArith List Bool.
 Import ListNotations.
 Require Import Verif.lib.PyLite Verif.gen.ConvergeGen Verif.lib.Converge Verif.lib.ConvergeProofs Verif.lib.ConvergeHist Verif.lib.ConvergeAttempts Verif.lib.ConvergeSeq
-  Verif.lib.ConvergeLayers Verif.lib.ConvergeLayersProofs.
+  Verif.lib.ConvergeLayers Verif.lib.ConvergeLayersProofs Verif.lib.ConvergeRef Verif.lib.ConvergeRefProofs.
+Require Verif.lib.Requests Verif.lib.RequestsProofs Verif.lib.RefLeg Verif.lib.RefLegProofs.
 
 (* "the system settles so that either each side's current connection to the other is the two ends of one and
    the same connection, or neither side has one": at quiescence (nothing in flight, every close seen by both ends:
@@ -161,29 +163,38 @@ Theorem C14_model_restart_displaces : forall s c inc last rest e,
 Proof. exact model_restart_displaces. Qed.
 Print Assumptions C14_model_restart_displaces.
 
-(* "Every getReference fires (success or failure) within the connection timeout".  Lookups are numbered per Tub
+(* "Every getReference fires (success or failure) within the connection timeout".
+   Tub.getReference has TWO LEGS: (1) Tub.getBrokerForTubRef -- wait for a connection to the peer: the waiters of
+   Tub.waitingForBrokers, answered by brokerAttached / connectionFailed -- and then (2) the callback
+   b.getYourReferenceByName(name) = callRemote("getReferenceByName") over the new Broker.  The sentence is TRUE OF LEG 1 and
+   FALSE OF LEG 2 (review 2): the theorems down to C14_sync_failure_answered_at_once are about leg 1 only -- a "lookup" of
+   the two-Tub model is a getBrokerForTubRef waiter (`GetRef`, t_waiters, t_fired), and they are named `broker_lookup`
+   accordingly; leg 2 is the block "SECOND LEG" further down (exact statement of when it fires, and the refutation).
+   "within the connection timeout" is a statement about connection ESTABLISHMENT.
+
+   LEG 1.  Lookups are numbered per Tub
    incarnation; the model has virtual time (`now`), every TubConnector an armed deadline, the listening end of every
    connection its own negotiation timer; `Advance dt` lets time pass up to the next armed timer and fires what is due.
    For every schedule (including any passage of time, forced timer firings, retries from errbacks):
-   a lookup number that has been handed out is either answered -- at a time within CONNECTION_TIMEOUT of the lookup --
+   a Broker-lookup number that has been handed out is either answered -- at a time within CONNECTION_TIMEOUT of the lookup --
    or still waiting, and then its time-out has not been reached yet. *)
-Theorem C14_every_lookup_fires_within_timeout : forall ops x w,
+Theorem C14_every_broker_lookup_fires_within_timeout : forall ops x w,
   let t := tubof x (run ops) in
   w < t_issued t ->
   (exists f, In f (t_fired t) /\ f_id f = w /\ (f_reg f <= f_at f <= f_reg f + CONNECTION_TIMEOUT)%Z) \/
   (exists r, In (w, r) (t_waiters t) /\ (r <= now (run ops) < r + CONNECTION_TIMEOUT)%Z).
 Proof. exact every_lookup_fires_within_timeout. Qed.
-Print Assumptions C14_every_lookup_fires_within_timeout.
+Print Assumptions C14_every_broker_lookup_fires_within_timeout.
 
-(* ... exactly once: the numbers of the answered and of the waiting lookups together are 0 .. issued-1, each once
+(* ... exactly once: the numbers of the answered and of the waiting Broker lookups together are 0 .. issued-1, each once
    (none lost, none answered twice, none both answered and waiting); nobody waits while a connection exists *)
-Theorem C14_lookups_accounted : forall ops x,
+Theorem C14_broker_lookups_accounted : forall ops x,
   let t := tubof x (run ops) in
   NoDup (map f_id (t_fired t) ++ map fst (t_waiters t)) /\
   (forall w, In w (map f_id (t_fired t) ++ map fst (t_waiters t)) <-> w < t_issued t) /\
   (t_broker t <> None -> t_waiters t = []).
 Proof. exact lookups_accounted. Qed.
-Print Assumptions C14_lookups_accounted.
+Print Assumptions C14_broker_lookups_accounted.
 
 (* every recorded answer lies within the bound (and not in the future) *)
 Theorem C14_fired_within_timeout : forall ops x f,
@@ -235,7 +246,7 @@ Print Assumptions C14_schedules_with_sync_failures.
 
 (* ... and "every getReference fires": such a lookup is errbacked at the moment it is made, and it leaves NO connector and
    no waiter behind -- so the next lookup of that Tub starts a connector, with a time-out, of its own
-   (C14_every_lookup_fires_within_timeout); with a retry armed, the lookup made from inside the errback waits on a new
+   (C14_every_broker_lookup_fires_within_timeout); with a retry armed, the lookup made from inside the errback waits on a new
    connector whose CONNECTION_TIMEOUT runs from now.  (The registration of the connector in Tub.tubConnectors BEFORE
    connect() -- without which the failed connector would stay registered -- is a translated shape fact of
    Tub.getBrokerForTubRef; the order inside Tub.connectionFailed is connection_failed_forgets_first.) *)
@@ -251,6 +262,116 @@ Theorem C14_sync_failure_answered_at_once : forall ops x,
      t_deadline (tubof x s') = (now s + CONNECTION_TIMEOUT)%Z /\ t_retry (tubof x s') = false).
 Proof. exact sync_failure_answered_at_once. Qed.
 Print Assumptions C14_sync_failure_answered_at_once.
+
+(* ---------------------------------------------------------------------------------------------------------------
+   SECOND LEG of getReference (review 2).  lib/RefLeg.v + lib/ConvergeRef.v: the callback's call is ONE two-way request in
+   the request table of the Broker it was given -- the table of C03 (lib/Requests.v, with its translated
+   PendingRequest.complete / fail and Broker.finish) --, and the two-Tub model drives that table: Broker.finish exactly in the
+   step in which that end of the connection stops being a live Broker (`phist`).
+
+   The exact statement, at the level of the request table: the Broker is connected and the request (rid, h) is pending
+   after `pre`.  For EVERY continuation: the Deferred has fired, or its failure has been queued by Broker.finish (`done`),
+   IF AND ONLY IF the continuation contains an answer / an error / a Violation for this request id, complete()/fail() on
+   this request object, or Broker.finish (`inert rid h o = false`).  Nothing else -- and no passage of time: nothing in
+   the request table is timed -- ends it. *)
+Theorem C14_second_leg_fires_iff_answer_or_loss : forall pre post h rid,
+  Requests.disconnected (Requests.run pre) = false -> RefLeg.pending (Requests.run pre) h rid ->
+  (RefLeg.done (Requests.run (pre ++ post)) h <-> Exists (fun o => RefLeg.inert rid h o = false) post).
+Proof. exact RefLegProofs.leg_fires_iff. Qed.
+Print Assumptions C14_second_leg_fires_iff_answer_or_loss.
+
+(* the hypotheses are what the callback produces: its call on a connected Broker is a pending request (handle = number of
+   calls made on that Broker before, id = the Broker's next request id) *)
+Theorem C14_second_leg_call_is_pending : forall ops,
+  Requests.disconnected (Requests.run ops) = false ->
+  RefLeg.pending (Requests.run (ops ++ [RefLeg.leg_call])) (List.length (Requests.calls (Requests.run ops)))
+                 (Requests.nextid (Requests.run ops)).
+Proof. exact RefLegProofs.leg_call_starts. Qed.
+Print Assumptions C14_second_leg_call_is_pending.
+
+(* the two ways it ends: the answer fires it with the result; Broker.finish(why) fires it -- as many turns of the
+   eventual queue later as there are entries -- with what the reason maps to (DeadReferenceError for every
+   lost-connection reason: C03_lost_reason...) *)
+Theorem C14_second_leg_answer_fires : forall ops h rid, RefLeg.pending (Requests.run ops) h rid ->
+  exists c', Requests.get (Requests.step (Requests.run ops) (Requests.Answer rid)) h = Some c' /\
+             Requests.c_fires c' = [Requests.OResult].
+Proof. exact RefLegProofs.leg_answer_fires. Qed.
+Print Assumptions C14_second_leg_answer_fires.
+
+Theorem C14_second_leg_loss_fires : forall ops r h rid,
+  Requests.disconnected (Requests.run ops) = false -> RefLeg.pending (Requests.run ops) h rid ->
+  let s1 := Requests.run (ops ++ [Requests.Finish r]) in
+  let s2 := Requests.run_from s1 (repeat Requests.Turn (List.length (Requests.evq s1))) in
+  exists c', Requests.get s2 h = Some c' /\ Requests.c_fires c' = [Requests.reason_outcome r].
+Proof. exact RefLegProofs.leg_loss_fires. Qed.
+Print Assumptions C14_second_leg_loss_fires.
+
+(* COMPOSED with the two-Tub model.  (a) In every reachable state an end that is a live Broker is still one after a lookup,
+   a dial, a CUT of any connection (its own included), a forced connector time-out, an armed retry, a change of the option
+   and after ANY passage of time (`Advance dt`): the connector's timer is disarmed at brokerAttached, the listening end's
+   negotiation timer at switchToBanana, nothing else is timed (Tub.disconnectTimeout = None by default is a translated shape
+   fact; the default keepalive timer only writes a PING; what TCP itself eventually does with an unacknowledged PING is
+   outside foolscap and the model).  Only a delivery, a close notification or a restart ends it. *)
+Theorem C14_established_end_has_no_timer : forall ops x c o,
+  cend x (conns (run ops) c) = EBrk -> not_a_notification o = true -> cend x (conns (step (run ops) o) c) = EBrk.
+Proof. exact established_end_kept. Qed.
+Print Assumptions C14_established_end_has_no_timer.
+
+(* (b) the iff, composed: after any history `pops` of the composed system with the request pending on x's connected Broker
+   on c, for EVERY continuation `more` (steps of the two-Tub model and events on the Broker, interleaved): the second leg is
+   over iff the Broker's part of `more` -- `phist`: Broker.finish for exactly the steps in which x's end of c stops being a
+   live Broker, one call per lookup answered with this Broker, the wire events -- contains one of the ending operations *)
+Theorem C14_getReference_second_leg_iff : forall x c pops more h rid,
+  Requests.disconnected (broker_requests x c pops) = false -> RefLeg.pending (broker_requests x c pops) h rid ->
+  (RefLeg.done (broker_requests x c (pops ++ more)) h <->
+   Exists (fun o => RefLeg.inert rid h o = false) (fst (phist x c (pnet pops) more))).
+Proof. exact second_leg_fires_iff. Qed.
+Print Assumptions C14_getReference_second_leg_iff.
+
+(* (c) hence: whatever the system does that is neither a delivery / close notification / restart nor an answer for this
+   request -- cuts and ANY passage of time included -- the getReference stays pending *)
+Theorem C14_getReference_pending_without_answer_or_notification : forall x c pops more h rid,
+  Requests.disconnected (broker_requests x c pops) = false -> RefLeg.pending (broker_requests x c pops) h rid ->
+  Forall (fun p => quiet_pop rid h p = true) more ->
+  RefLeg.pending (broker_requests x c (pops ++ more)) h rid /\
+  Requests.disconnected (broker_requests x c (pops ++ more)) = false /\
+  ~ RefLeg.done (broker_requests x c (pops ++ more)) h.
+Proof. exact second_leg_silent. Qed.
+Print Assumptions C14_getReference_pending_without_answer_or_notification.
+
+(* (d) the step in which the end stops being a live Broker does end it; the hand-over from leg 1: a lookup made while the
+   Tub holds the Broker is answered at once and makes its call on it *)
+Theorem C14_getReference_ends_when_loss_is_notified : forall x c pops o why h rid,
+  Requests.disconnected (broker_requests x c pops) = false -> RefLeg.pending (broker_requests x c pops) h rid ->
+  live x c (pnet pops) = true -> live x c (step (pnet pops) o) = false ->
+  RefLeg.done (broker_requests x c (pops ++ [PNet o why])) h.
+Proof. exact second_leg_ends_on_loss. Qed.
+Print Assumptions C14_getReference_ends_when_loss_is_notified.
+
+Theorem C14_second_leg_starts : forall x c pops why,
+  t_broker (tubof x (pnet pops)) = Some c -> Requests.disconnected (broker_requests x c pops) = false ->
+  broker_requests x c (pops ++ [PNet (GetRef x) why]) = Requests.step (broker_requests x c pops) RefLeg.leg_call /\
+  RefLeg.pending (broker_requests x c (pops ++ [PNet (GetRef x) why]))
+                 (List.length (Requests.calls (broker_requests x c pops))) (Requests.nextid (broker_requests x c pops)).
+Proof. exact second_leg_starts. Qed.
+Print Assumptions C14_second_leg_starts.
+
+(* "Every getReference fires within the connection timeout", full sentence, both legs: REFUTED.  The schedule
+   (ConvergeRef.silent_ops; replayed on real Tubs by the harness on every run, reported as a note): the non-master S looks
+   M up and dials, the negotiation completes at both ends -- S's Broker lookup IS answered, with a Broker, at time 0 --, then
+   the network drops the link without telling anybody (Cut, no CloseSeen).  For EVERY further passage of time both ends
+   are still live Brokers, the request table has seen nothing but the call, the getReference has not fired.
+   (ConvergeRefProofs.black_holed_time: 20 x 130 s = 2600 s > CONNECTION_TIMEOUT; black_holed_then_notified: once the loss is
+   notified it fires with DeadReferenceError.) *)
+Theorem C14_every_getReference_fires_within_timeout_refuted : forall why dts,
+  let base := silent_pops why [] in
+  let l := silent_pops why dts in
+  In (mkfired 0 0 0 true) (t_fired (ts (pnet base))) /\ t_broker (ts (pnet base)) = Some 0 /\
+  c_cut (conns (pnet base) 0) = true /\ broker_requests TS 0 base = Requests.run [RefLeg.leg_call] /\
+  live TS 0 (pnet l) = true /\ live TM 0 (pnet l) = true /\
+  RefLeg.pending (broker_requests TS 0 l) 0 1 /\ ~ RefLeg.done (broker_requests TS 0 l) 0.
+Proof. exact getReference_black_holed. Qed.
+Print Assumptions C14_every_getReference_fires_within_timeout_refuted.
 
 (* "for all histories of previous connections recorded by either side": for every schedule, whenever both Tubs hold
    the same current connection, the non-master's slave_table record is exactly (master incarnation, seqnum of that
@@ -281,7 +402,14 @@ Print Assumptions C14_slave_records_decision.
    from its record of THAT peer; this is what makes it so: for every interleaving of the set-up (initClient) and the
    hellos (sendHello, one round trip later) of any number of outbound Negotiations of one Tub -- to its peer over several
    hints and to other Tubs with other histories -- every hello carries the last-connection record of ITS OWN target.
-   `offer_dict_fresh` is translated from Negotiation.__init__ (self.negotiationOffer is built per instance). *)
+   `offer_dict_fresh` is translated from Negotiation.__init__ (self.negotiationOffer is built per instance).
+   HOW MUCH THIS SAYS (review 2): in lib/ConvergeLayers.v a Negotiation's own dict holds `rec tgt` from its creation on and
+   `rec` (Tub.slave_table as a function of the target) is CONSTANT during the script, so with the flag = true the statement
+   holds by construction of `ostep`; its content is (i) that the flag read from the source IS true -- a shared dict flips
+   it, and then the statement is false: C14_shared_offer_refuted, same model, other value of the flag -- and (ii) the
+   correspondence with real Negotiation objects (harness, 43+ scripts) plus the direct oracle on the hellos.  It is NOT a
+   statement about a slave_table that changes between initClient and sendHello (the real hello then carries the record as
+   of initClient; not modelled). *)
 Theorem C14_hello_carries_own_record : forall rec evs n c,
   In (n, c) (o_out (orun offer_dict_fresh rec evs)) ->
   exists tgt, nth_error (o_tgts (orun offer_dict_fresh rec evs)) n = Some tgt /\ c = rec tgt.
@@ -297,8 +425,8 @@ Print Assumptions C14_shared_offer_refuted.
 
 (* LOOKUPS QUEUED BEFORE Tub.startService (lib/ConvergeLayers.v, prestart).  For every history of getReference calls,
    the start and answers: every Deferred handed out is still queued (Tub not started) or has exactly ONE lookup of its
-   own -- a lookup of the two-Tub model made at the time of the start, so C14_every_lookup_fires_within_timeout applies
-   to it, counted from the start -- and fires exactly when that lookup is answered; no Deferred fires twice.
+   own -- a lookup of the two-Tub model made at the time of the start, so C14_every_broker_lookup_fires_within_timeout
+   applies to its first leg, counted from the start -- and fires exactly when that lookup is answered; no Deferred fires twice.
    `relay_binds_own_deferred` is translated from the loop in Tub.startService. *)
 Theorem C14_each_deferred_has_its_own_lookup : forall evs o,
   let s := prun relay_binds_own_deferred evs in
